@@ -212,9 +212,10 @@ def run(rec):
     rng = np.random.default_rng(rec.seed + 6)
     quick = rec.tier == 'quick'
     rec.rule = ('exhaustive over all legs with <= B blocks, sizes <= 2, charge window {-1,0,1}, mod in {1,2,3}: every single leg and '
-                'every pair of legs (quick: B=2 for pairs; thorough: B=3), x outgoing qconj x sort x bunch; 3-4 legs sampled; '
+                'pairs of legs with <= 2 blocks (quick: every 11th pair; thorough: every pair) and, thorough only, a fixed stride of '
+                '~6000 pairs per charge type through all pairs of legs with <= 3 blocks, x outgoing qconj x sort x bunch; 3-4 legs sampled; '
                 'non-trivial = pipe with >= 2 incoming blocks in total; distinct = distinct (legs, options)')
-    maxb_pairs = 2 if quick else 3
+    maxb_pairs = 2
     rec.bounds = {'mod': [1, 2, 3], 'max_blocks_single': 3, 'max_blocks_pairs': maxb_pairs, 'max_block_size': 2,
                   'nlegs_exhaustive': [1, 2], 'nlegs_sampled': [3, 4]}
     rec.exhaustive = True
@@ -230,17 +231,22 @@ def run(rec):
                 for qconj, sort, bunch in itertools.product((1, -1), (True, False), (True, False)):
                     check_pipe(rec, [leg], qconj, sort, bunch)
                     rec.case(('pipe1', mod, li, qconj, sort, bunch), leg.block_number >= 2)
-        _, legs2 = small_legs(mod, maxb_pairs, 2)
-        pairs = list(itertools.product(range(len(legs2)), repeat=2))
-        step = 11 if quick else 1
-        for pi in range(0, len(pairs), step):
-            i, j = pairs[pi]
+        _, legs2 = small_legs(mod, 2, 2)
+        pairs = [(legs2[i], legs2[j], i, j) for i, j in itertools.product(range(len(legs2)), repeat=2)]
+        step = 11 if quick else 1            # pairs of legs with <= 2 blocks: thorough = all of them
+        pairs = pairs[::step]
+        if not quick:
+            # pairs of legs with <= 3 blocks: a fixed stride through the full enumeration (it has ~2.7e5 pairs per charge type)
+            pairs3 = list(itertools.product(range(len(legs3)), repeat=2))
+            stride = max(1, len(pairs3) // 6000)
+            pairs += [(legs3[i], legs3[j], 10000 + i, 10000 + j) for i, j in pairs3[3::stride]]
+        for pi, (la, lb, i, j) in enumerate(pairs):
             rec.begin(f'C06 pipe mod={mod} legs #{i},#{j}')
             for qconj, sort, bunch in itertools.product((1, -1), (True, False), (True, False)):
-                check_pipe(rec, [legs2[i], legs2[j]], qconj, sort, bunch)
-                rec.case(('pipe2', mod, i, j, qconj, sort, bunch), legs2[i].block_number + legs2[j].block_number >= 2,
-                         sample={'mod': mod, 'legs': [(legs2[i].qconj, legs2[i].slices.tolist(), legs2[i].charges.ravel().tolist()),
-                                                      (legs2[j].qconj, legs2[j].slices.tolist(), legs2[j].charges.ravel().tolist())],
+                check_pipe(rec, [la, lb], qconj, sort, bunch)
+                rec.case(('pipe2', mod, i, j, qconj, sort, bunch), la.block_number + lb.block_number >= 2,
+                         sample={'mod': mod, 'legs': [(la.qconj, la.slices.tolist(), la.charges.ravel().tolist()),
+                                                      (lb.qconj, lb.slices.tolist(), lb.charges.ravel().tolist())],
                                  'qconj': qconj, 'sort': sort, 'bunch': bunch} if pi == 0 and sort and bunch and qconj == 1 else None)
         # 3-4 legs: sampled
         for k in range(20 if quick else 600):
